@@ -48,8 +48,9 @@ def installed_while_running : Prop :=
   ∀ (cfgs : List Cfg) (fm0 : Option (List Nat)) (sched : List Nat), NoFault cfgs →
     InstalledWhileRunning (run (init cfgs fm0) sched)
 
-def fmmu_windows_disjoint : Prop :=
-  ∀ (cfgs : List Cfg) (fm0 : Option (List Nat)) (sched : List Nat), NoFault cfgs →
+/-- no hypothesis at all: any participants, any draws, any earlier contents of the bitmap file, faults included -/
+def fmmu_windows_disjoint_full : Prop :=
+  ∀ (cfgs : List Cfg) (fm0 : Option (List Nat)) (sched : List Nat),
     FmmuWindowsDisjoint (run (init cfgs fm0) sched)
 
 /-! ### refutations on concrete witness schedules (the same cases as `findings/C23.json`) -/
@@ -84,42 +85,14 @@ theorem windowsDisjointB_sound (s : Sys) (h : FmmuWindowsDisjoint s) : windowsDi
       simp [this]
 
 /-- last leaver / new starter: participant 0 installs, runs, leaves, removes its member file and the lock
-directory (14 operations); participant 1 then becomes installer, attaches, pins and runs (14 operations);
+directory (19 operations); participant 1 then becomes installer, attaches, pins and runs (14 operations);
 participant 0 continues its `finally` block with `detach` — of participant 1's dispatcher. -/
 def raceCfgs : List Cfg := [{}, { fmDraws := [7] }]
-def raceSched : List Nat := List.replicate 14 0 ++ List.replicate 14 1 ++ [0, 0]
+def raceSched : List Nat := List.replicate 19 0 ++ List.replicate 14 1 ++ [0, 0]
 
 theorem installed_while_running_refuted : ¬ installed_while_running := by
   intro h
   have := installedB_sound _ (h raceCfgs none raceSched (by decide))
-  revert this
-  decide +kernel
-
-/-- create-then-initialise window of the FMMU bitmap: participant 0 creates the file (10 operations, the
-last one `os.open(… O_EXCL)`); participant 1 finds an empty file, repairs it and takes process number 7;
-participant 0's unlocked initialising `os.write` wipes that bit; participant 2 is given number 7 as well. -/
-def windowCfgs : List Cfg :=
-  [{}, { etDraws := [12288], fmDraws := [7] }, { etDraws := [12288, 12289], fmDraws := [7] }]
-def windowSched : List Nat :=
-  List.replicate 10 0 ++ List.replicate 16 1 ++ [0] ++ List.replicate 15 2
-
-/-- `get_next_addr` has no upper bound: after `fmWindow / fmGroup` calls participant 0 (process number 1)
-holds an address inside the window of process number 2, which participant 1 owns; the bitmap file was
-initialised by participant 0 long before participant 1 opened it. -/
-def overflowCfgs : List Cfg := [{ nAddr := fmWindow / fmGroup }, { etDraws := [12288], fmDraws := [2] }]
-def overflowSched : List Nat := List.replicate 11 0 ++ List.replicate 14 1
-
-theorem fmmu_windows_disjoint_refuted : ¬ fmmu_windows_disjoint := by
-  intro h
-  have := windowsDisjointB_sound _ (h windowCfgs none windowSched (by decide))
-  revert this
-  decide +kernel
-
-/-- the second, independent way the clause fails (no concurrent creation involved) -/
-theorem fmmu_windows_overflow_refuted :
-    ¬ FmmuWindowsDisjoint (run (init overflowCfgs none) overflowSched) := by
-  intro h
-  have := windowsDisjointB_sound _ h
   revert this
   decide +kernel
 
@@ -511,359 +484,7 @@ theorem bitSet_clearBit {f : List Nat} {k b : Nat} (h : k < f.length) (m : Nat) 
       simp [e2, this]
   · simp [e]
 
-/-! ### the invariant behind `fmmu_windows_disjoint_partial` -/
-
-/-- owns a process number in the bitmap (from the `pwrite` that sets its bit to the one that clears it) -/
-def _root_.Ebv.Parallel.Pc.owns : Pc → Bool
-  | .fmUnlock | .running | .removeMember | .rmdir | .detach | .removePin | .mbxRemove
-  | .fmRLock | .fmRRead | .fmRClear => true
-  | _ => false
-
-/-- holds the record lock of the bitmap file -/
-def _root_.Ebv.Parallel.Pc.locked : Pc → Bool
-  | .fmRead | .fmFix | .fmTrunc | .fmSet | .fmUnlock | .fmRRead | .fmRClear | .fmRUnlock => true
-  | _ => false
-
-def fmOf (s : Sys) : List Nat := s.fm.getD []
-
-def ProcOk (p : Proc) : Prop :=
-  (∀ d ∈ p.fmDraws, d < fmProcs) ∧ (p.nAddr + 1) * fmGroup ≤ fmWindow
-
-structure FInv (s : Sys) : Prop where
-  file : s.fm.isSome = true ∧ (fmOf s).length = fmSize
-  cfg : ∀ i, i < s.procs.length → ProcOk (getP s i)
-  own : ∀ i, i < s.procs.length → (getP s i).pc.owns = true →
-    bitSet (fmOf s) (getP s i).fmNo = true ∧ (getP s i).fmNo < fmProcs
-  dist : ∀ i j, i < s.procs.length → j < s.procs.length → i ≠ j →
-    (getP s i).pc.owns = true → (getP s j).pc.owns = true → (getP s i).fmNo ≠ (getP s j).fmNo
-  lock : ∀ i, i < s.procs.length → (getP s i).pc.locked = true → s.fmLock = some i
-  bufSet : ∀ i, i < s.procs.length → (getP s i).pc = .fmSet → (getP s i).fmBuf = fmOf s
-  bufClr : ∀ i, i < s.procs.length → (getP s i).pc = .fmRClear →
-    (getP s i).fmBuf = [(fmOf s).getD ((getP s i).fmNo / 8) 0]
-  unreach : ∀ i, i < s.procs.length →
-    (getP s i).pc ≠ .fmWrite ∧ (getP s i).pc ≠ .fmFix ∧ (getP s i).pc ≠ .fmTrunc
-
-/-- the obligations of one operation of participant `i`, with the frame for everybody else -/
-theorem finv_update {s : Sys} (hI : FInv s) {i : Nat} (hi : i < s.procs.length) (s1 : Sys) (p' : Proc)
-    (hpr : s1.procs = s.procs)
-    (hfile : s1.fm.isSome = true ∧ (fmOf s1).length = fmSize)
-    (hcfg : ProcOk p')
-    (hkeep : ∀ j, j < s.procs.length → j ≠ i → (getP s j).pc.owns = true → bitSet (fmOf s1) (getP s j).fmNo = true)
-    (hown : p'.pc.owns = true → (bitSet (fmOf s1) p'.fmNo = true ∧ p'.fmNo < fmProcs) ∧
-      ∀ j, j < s.procs.length → j ≠ i → (getP s j).pc.owns = true → (getP s j).fmNo ≠ p'.fmNo)
-    (hlock : (p'.pc.locked = true → s1.fmLock = some i) ∧
-      ∀ j, j < s.procs.length → j ≠ i → (getP s j).pc.locked = true → s1.fmLock = some j)
-    (hbs : (p'.pc = .fmSet → p'.fmBuf = fmOf s1) ∧
-      ∀ j, j < s.procs.length → j ≠ i → (getP s j).pc = .fmSet → (getP s j).fmBuf = fmOf s1)
-    (hbc : (p'.pc = .fmRClear → p'.fmBuf = [(fmOf s1).getD (p'.fmNo / 8) 0]) ∧
-      ∀ j, j < s.procs.length → j ≠ i → (getP s j).pc = .fmRClear →
-        (getP s j).fmBuf = [(fmOf s1).getD ((getP s j).fmNo / 8) 0])
-    (hun : p'.pc ≠ .fmWrite ∧ p'.pc ≠ .fmFix ∧ p'.pc ≠ .fmTrunc) : FInv (setP s1 i p') := by
-  have hi1 : i < s1.procs.length := by rw [hpr]; exact hi
-  have hg : ∀ j, getP (setP s1 i p') j = if j = i then p' else getP s j := by
-    intro j; rw [getP_setP _ _ _ _ hi1]; split <;> simp [getP_congr hpr]
-  have hlen : (setP s1 i p').procs.length = s.procs.length := by simp [hpr]
-  have hfm : fmOf (setP s1 i p') = fmOf s1 := rfl
-  refine ⟨?_, ?_, ?_, ?_, ?_, ?_, ?_, ?_⟩
-  · exact hfile
-  · intro j hj; rw [hlen] at hj; rw [hg]; split
-    · exact hcfg
-    · exact hI.cfg j hj
-  · intro j hj ho; rw [hlen] at hj; rw [hg] at ho ⊢; rw [hfm]
-    split at ho
-    · next h => simp only [h, if_true]; exact (hown ho).1
-    · next h => simp only [h, if_false]; exact ⟨hkeep j hj h ho, (hI.own j hj ho).2⟩
-  · intro a b ha hb hab hoa hob
-    rw [hlen] at ha hb; rw [hg] at hoa hob ⊢; rw [hg]
-    by_cases h1 : a = i <;> by_cases h2 : b = i <;> simp only [h1, h2, if_true, if_false] at hoa hob ⊢
-    · exact absurd (h1.trans h2.symm) hab
-    · exact fun e => (hown hoa).2 b hb h2 hob e.symm
-    · exact (hown hob).2 a ha h1 hoa
-    · exact hI.dist a b ha hb hab hoa hob
-  · intro j hj hl; rw [hlen] at hj; rw [hg] at hl
-    simp only [setP_fmLock]
-    split at hl
-    · next h => rw [h]; exact hlock.1 hl
-    · next h => exact hlock.2 j hj h hl
-  · intro j hj hpc; rw [hlen] at hj; rw [hg] at hpc ⊢; rw [hfm]
-    split at hpc
-    · next h => simp only [h, if_true]; exact hbs.1 hpc
-    · next h => simp only [h, if_false]; exact hbs.2 j hj h hpc
-  · intro j hj hpc; rw [hlen] at hj; rw [hg] at hpc ⊢; rw [hfm]
-    split at hpc
-    · next h => simp only [h, if_true]; exact hbc.1 hpc
-    · next h => simp only [h, if_false]; exact hbc.2 j hj h hpc
-  · intro j hj; rw [hlen] at hj; rw [hg]; split
-    · exact hun
-    · exact hI.unreach j hj
-
-/-- an operation that does not write the bitmap file -/
-theorem finv_same {s : Sys} (hI : FInv s) {i : Nat} (hi : i < s.procs.length) (s1 : Sys) (p' : Proc)
-    (hpr : s1.procs = s.procs) (hfm : s1.fm = s.fm)
-    (hlock : (p'.pc.locked = true → s1.fmLock = some i) ∧
-      ∀ j, j < s.procs.length → j ≠ i → (getP s j).pc.locked = true → s1.fmLock = some j)
-    (hcfg : p'.fmDraws = (getP s i).fmDraws ∧ p'.nAddr = (getP s i).nAddr)
-    (hown : p'.pc.owns = true → (getP s i).pc.owns = true ∧ p'.fmNo = (getP s i).fmNo)
-    (hbs : p'.pc = .fmSet → p'.fmBuf = fmOf s)
-    (hbc : p'.pc = .fmRClear → p'.fmBuf = [(fmOf s).getD (p'.fmNo / 8) 0])
-    (hun : p'.pc ≠ .fmWrite ∧ p'.pc ≠ .fmFix ∧ p'.pc ≠ .fmTrunc) : FInv (setP s1 i p') := by
-  have hf : fmOf s1 = fmOf s := by simp [fmOf, hfm]
-  refine finv_update hI hi s1 p' hpr ?_ ?_ ?_ ?_ hlock ?_ ?_ hun
-  · rw [hf, hfm]; exact hI.file
-  · have := hI.cfg i hi; unfold ProcOk at this ⊢; rw [hcfg.1, hcfg.2]; exact this
-  · intro j hj _ ho; rw [hf]; exact (hI.own j hj ho).1
-  · intro ho
-    obtain ⟨h1, h2⟩ := hown ho
-    rw [hf, h2]
-    exact ⟨hI.own i hi h1, fun j hj hne hoj => hI.dist j i hj hi hne hoj h1⟩
-  · rw [hf]; exact ⟨hbs, fun j hj _ h => hI.bufSet j hj h⟩
-  · rw [hf]; exact ⟨hbc, fun j hj _ h => hI.bufClr j hj h⟩
-
-theorem finv_local {s : Sys} (hI : FInv s) {i : Nat} (hi : i < s.procs.length) (s1 : Sys) (p' : Proc)
-    (hpr : s1.procs = s.procs) (hfm : s1.fm = s.fm) (hlk : s1.fmLock = s.fmLock)
-    (hlocked : p'.pc.locked = true → (getP s i).pc.locked = true)
-    (hcfg : p'.fmDraws = (getP s i).fmDraws ∧ p'.nAddr = (getP s i).nAddr)
-    (hown : p'.pc.owns = true → (getP s i).pc.owns = true ∧ p'.fmNo = (getP s i).fmNo)
-    (hbs : p'.pc = .fmSet → p'.fmBuf = fmOf s)
-    (hbc : p'.pc = .fmRClear → p'.fmBuf = [(fmOf s).getD (p'.fmNo / 8) 0])
-    (hun : p'.pc ≠ .fmWrite ∧ p'.pc ≠ .fmFix ∧ p'.pc ≠ .fmTrunc) : FInv (setP s1 i p') :=
-  finv_same hI hi s1 p' hpr hfm
-    ⟨fun h => by rw [hlk]; exact hI.lock i hi (hlocked h), fun j hj _ h => by rw [hlk]; exact hI.lock j hj h⟩
-    hcfg hown hbs hbc hun
-
-theorem nobody_locked {s : Sys} (hI : FInv s) {i : Nat} (h : canLock s i = true) :
-    ∀ j, j < s.procs.length → j ≠ i → (getP s j).pc.locked = false := by
-  intro j hj hne
-  cases hl : (getP s j).pc.locked
-  · rfl
-  · have := hI.lock j hj hl
-    simp only [canLock, this] at h
-    exact absurd (by simpa using h) hne
-
-theorem finv_acquire {s : Sys} (hI : FInv s) {i : Nat} (hi : i < s.procs.length) (s1 : Sys) (p' : Proc)
-    (hpr : s1.procs = s.procs) (hfm : s1.fm = s.fm) (hlk : s1.fmLock = some i) (hcan : canLock s i = true)
-    (hcfg : p'.fmDraws = (getP s i).fmDraws ∧ p'.nAddr = (getP s i).nAddr)
-    (hown : p'.pc.owns = true → (getP s i).pc.owns = true ∧ p'.fmNo = (getP s i).fmNo)
-    (hbs : p'.pc = .fmSet → p'.fmBuf = fmOf s)
-    (hbc : p'.pc = .fmRClear → p'.fmBuf = [(fmOf s).getD (p'.fmNo / 8) 0])
-    (hun : p'.pc ≠ .fmWrite ∧ p'.pc ≠ .fmFix ∧ p'.pc ≠ .fmTrunc) : FInv (setP s1 i p') :=
-  finv_same hI hi s1 p' hpr hfm
-    ⟨fun _ => hlk, fun j hj hne h => by rw [nobody_locked hI hcan j hj hne] at h; cases h⟩
-    hcfg hown hbs hbc hun
-
-theorem finv_release {s : Sys} (hI : FInv s) {i : Nat} (hi : i < s.procs.length) (s1 : Sys) (p' : Proc)
-    (hpr : s1.procs = s.procs) (hfm : s1.fm = s.fm)
-    (hwas : (getP s i).pc.locked = true) (hnow : p'.pc.locked = false)
-    (hcfg : p'.fmDraws = (getP s i).fmDraws ∧ p'.nAddr = (getP s i).nAddr)
-    (hown : p'.pc.owns = true → (getP s i).pc.owns = true ∧ p'.fmNo = (getP s i).fmNo)
-    (hbs : p'.pc = .fmSet → p'.fmBuf = fmOf s)
-    (hbc : p'.pc = .fmRClear → p'.fmBuf = [(fmOf s).getD (p'.fmNo / 8) 0])
-    (hun : p'.pc ≠ .fmWrite ∧ p'.pc ≠ .fmFix ∧ p'.pc ≠ .fmTrunc) : FInv (setP s1 i p') :=
-  finv_same hI hi s1 p' hpr hfm
-    ⟨fun h => (by rw [hnow] at h; cases h),
-     fun j hj hne h => absurd (Option.some.inj ((hI.lock j hj h).symm.trans (hI.lock i hi hwas))) hne⟩
-    hcfg hown hbs hbc hun
-
-
-@[simp] theorem drawEt_fmDraws (p : Proc) : (drawEt p).2.fmDraws = p.fmDraws := by unfold drawEt; split <;> rfl
-@[simp] theorem drawEt_nAddr (p : Proc) : (drawEt p).2.nAddr = p.nAddr := by unfold drawEt; split <;> rfl
-@[simp] theorem drawEt_fmNo (p : Proc) : (drawEt p).2.fmNo = p.fmNo := by unfold drawEt; split <;> rfl
-@[simp] theorem drawEt_fmBuf (p : Proc) : (drawEt p).2.fmBuf = p.fmBuf := by unfold drawEt; split <;> rfl
-
-theorem rmNo_eq {p : Proc} (h : ProcOk p) : rmNo p = p.fmNo := by
-  have h2 := h.2
-  simp only [rmNo, lastAddr, fmWindow, fmGroup] at h2 ⊢
-  omega
-
-theorem no_byte {f : List Nat} {n : Nat} (hf : f.length = fmSize) (hn : n < fmProcs) : n / 8 < f.length := by
-  rw [hf]; simp only [fmSize, fmProcs] at hn ⊢; omega
-
-theorem pickNo_lt {buf : List Nat} {ds : List Nat} {n : Nat} (hd : ∀ d ∈ ds, d < fmProcs)
-    (h : pickNo buf ds = some n) : n < fmProcs ∧ bitSet buf n = false := by
-  induction ds with
-  | nil =>
-    simp only [pickNo] at h
-    have h1 := List.find?_some h
-    have h2 := List.mem_of_find?_eq_some h
-    simp only [Bool.and_eq_true, decide_eq_true_eq, Bool.not_eq_true'] at h1
-    exact ⟨List.mem_range.mp h2, h1.2⟩
-  | cons d r ih =>
-    simp only [pickNo] at h
-    split at h
-    · exact ih (fun x hx => hd x (List.mem_cons_of_mem _ hx)) h
-    · next hb =>
-      cases h
-      exact ⟨hd _ (List.mem_cons_self ..), by simpa using hb⟩
-
-theorem other_not_locked {s : Sys} (hI : FInv s) {i : Nat} (hi : i < s.procs.length)
-    (hl : (getP s i).pc.locked = true) : ∀ j, j < s.procs.length → j ≠ i → (getP s j).pc.locked = false := by
-  intro j hj hne
-  cases h : (getP s j).pc.locked
-  · rfl
-  · exact absurd (Option.some.inj ((hI.lock j hj h).symm.trans (hI.lock i hi hl))) hne
-
-/-- the `pwrite` that sets the chosen bit -/
-theorem finv_set {s : Sys} (hI : FInv s) {i : Nat} (hi : i < s.procs.length) (s1 : Sys) (p' : Proc) (n : Nat)
-    (hpr : s1.procs = s.procs) (hpc : (getP s i).pc = .fmSet)
-    (hpick : pickNo (getP s i).fmBuf (getP s i).fmDraws = some n)
-    (hfm : s1.fm = some (pwriteByte (fmOf s) (n / 8) ((getP s i).fmBuf.getD (n / 8) 0 ||| 2 ^ (n % 8))))
-    (hlk : s1.fmLock = s.fmLock)
-    (hcfg : p'.fmDraws = (getP s i).fmDraws ∧ p'.nAddr = (getP s i).nAddr)
-    (hpc' : p'.pc = .fmUnlock) (hno : p'.fmNo = n) : FInv (setP s1 i p') := by
-  have hbuf := hI.bufSet i hi hpc
-  have hl : (getP s i).pc.locked = true := by rw [hpc]; rfl
-  have hnl := other_not_locked hI hi hl
-  obtain ⟨hn, hfree⟩ := pickNo_lt (hI.cfg i hi).1 hpick
-  rw [hbuf] at hfree hfm
-  have hk := no_byte hI.file.2 hn
-  have hf1 : fmOf s1 = pwriteByte (fmOf s) (n / 8) ((fmOf s).getD (n / 8) 0 ||| 2 ^ (n % 8)) := by
-    simp [fmOf, hfm]
-  refine finv_update hI hi s1 p' hpr ?_ ?_ ?_ ?_ ?_ ?_ ?_ ?_
-  · rw [hf1, pwriteByte_len hk]; exact ⟨by simp [hfm], hI.file.2⟩
-  · have := hI.cfg i hi; unfold ProcOk at this ⊢; rw [hcfg.1, hcfg.2]; exact this
-  · intro j hj _ ho; rw [hf1, bitSet_setBit hk, (hI.own j hj ho).1]; rfl
-  · intro _
-    rw [hno, hf1, bitSet_setBit hk]
-    refine ⟨⟨by simp, hn⟩, ?_⟩
-    intro j hj _ ho e
-    have := (hI.own j hj ho).1
-    rw [e, hfree] at this; cases this
-  · refine ⟨fun _ => by rw [hlk]; exact hI.lock i hi hl, fun j hj hne h => ?_⟩
-    rw [hnl j hj hne] at h; cases h
-  · refine ⟨fun h => (by rw [hpc'] at h; cases h), fun j hj hne h => ?_⟩
-    have := hnl j hj hne; rw [h] at this; cases this
-  · refine ⟨fun h => (by rw [hpc'] at h; cases h), fun j hj hne h => ?_⟩
-    have := hnl j hj hne; rw [h] at this; cases this
-  · rw [hpc']; decide
-
-/-- the `pwrite` of `FMMULock.remove` that clears the own bit -/
-theorem finv_clear {s : Sys} (hI : FInv s) {i : Nat} (hi : i < s.procs.length) (s1 : Sys) (p' : Proc)
-    (hpr : s1.procs = s.procs) (hpc : (getP s i).pc = .fmRClear)
-    (hfm : s1.fm = some (pwriteByte (fmOf s) (rmNo (getP s i) / 8)
-      (clearBit ((getP s i).fmBuf.getD 0 0) (rmNo (getP s i) % 8))))
-    (hlk : s1.fmLock = s.fmLock)
-    (hcfg : p'.fmDraws = (getP s i).fmDraws ∧ p'.nAddr = (getP s i).nAddr)
-    (hpc' : p'.pc = .fmRUnlock) : FInv (setP s1 i p') := by
-  have hbuf := hI.bufClr i hi hpc
-  have hl : (getP s i).pc.locked = true := by rw [hpc]; rfl
-  have ho : (getP s i).pc.owns = true := by rw [hpc]; rfl
-  have hnl := other_not_locked hI hi hl
-  have hr := rmNo_eq (hI.cfg i hi)
-  have hn := (hI.own i hi ho).2
-  have hk := no_byte hI.file.2 hn
-  rw [hr, hbuf] at hfm
-  have hf1 : fmOf s1 = pwriteByte (fmOf s) ((getP s i).fmNo / 8)
-      (clearBit ((fmOf s).getD ((getP s i).fmNo / 8) 0) ((getP s i).fmNo % 8)) := by
-    simp [fmOf, hfm]
-  refine finv_update hI hi s1 p' hpr ?_ ?_ ?_ ?_ ?_ ?_ ?_ ?_
-  · rw [hf1, pwriteByte_len hk]; exact ⟨by simp [hfm], hI.file.2⟩
-  · have := hI.cfg i hi; unfold ProcOk at this ⊢; rw [hcfg.1, hcfg.2]; exact this
-  · intro j hj hne hoj
-    rw [hf1, bitSet_clearBit hk, (hI.own j hj hoj).1]
-    have hd := hI.dist j i hj hi hne hoj ho
-    have : ¬ ((getP s j).fmNo / 8 = (getP s i).fmNo / 8 ∧ (getP s j).fmNo % 8 = (getP s i).fmNo % 8) := by
-      intro ⟨a, b⟩; omega
-    simp only [Bool.true_and, Bool.not_eq_true', Bool.and_eq_false_iff, beq_eq_false_iff_ne, ne_eq]
-    by_cases a : (getP s j).fmNo / 8 = (getP s i).fmNo / 8
-    · right; exact fun b => this ⟨a, b⟩
-    · left; exact a
-  · intro h; rw [hpc'] at h; cases h
-  · refine ⟨fun _ => by rw [hlk]; exact hI.lock i hi hl, fun j hj hne h => ?_⟩
-    rw [hnl j hj hne] at h; cases h
-  · refine ⟨fun h => (by rw [hpc'] at h; cases h), fun j hj hne h => ?_⟩
-    have := hnl j hj hne; rw [h] at this; cases this
-  · refine ⟨fun h => (by rw [hpc'] at h; cases h), fun j hj hne h => ?_⟩
-    have := hnl j hj hne; rw [h] at this; cases this
-  · rw [hpc']; decide
-
-theorem finv_step {s : Sys} (hI : FInv s) (i : Nat) : FInv (step s i) := by
-  unfold step
-  split
-  case isFalse => exact hI
-  case isTrue hi =>
-    generalize hp : getP s i = p
-    cases hpc : p.pc <;> simp only [stepStart, stepFiles, stepExit, hpc]
-    all_goals (repeat' split)
-    all_goals (try exact hI)
-    all_goals (try (apply finv_local hI hi <;> first | rfl | (simp_all [emit, Pc.owns, Pc.locked]; done)))
-    all_goals first
-      | (exfalso; have := hI.file.1; simp_all; done)
-      | (exfalso; have := hI.unreach i hi; simp_all; done)
-      | (apply finv_acquire hI hi <;> first | rfl | assumption | (simp_all [emit, Pc.owns, Pc.locked]; done))
-      | (apply finv_release hI hi <;> first | rfl | (simp_all [emit, Pc.owns, Pc.locked]; done))
-      | skip
-    case fmRead.isTrue =>
-      have ht : List.take fmSize (s.fm.getD []) = fmOf s := by
-        rw [fmOf]; apply List.take_of_length_le; have := hI.file.2; rw [fmOf] at this; omega
-      apply finv_local hI hi <;> first | rfl | (simp_all [emit, Pc.owns, Pc.locked]; done)
-    case fmRead.isFalse h =>
-      exfalso; apply h
-      have := hI.file.2; rw [fmOf] at this
-      simp [this]
-    case fmRRead.isTrue =>
-      have hr : rmNo p = p.fmNo := rmNo_eq (hp ▸ hI.cfg i hi)
-      apply finv_local hI hi <;> first | rfl | (simp_all [emit, Pc.owns, Pc.locked, fmOf]; done)
-    case fmRClear =>
-      subst hp
-      apply finv_clear hI hi <;> first | rfl | exact hpc | exact ⟨rfl, rfl⟩
-    case h_1 n hn =>
-      subst hp
-      apply finv_set hI hi _ _ n <;> first | rfl | exact hpc | exact hn | exact ⟨rfl, rfl⟩
-
-theorem finv_run {s : Sys} (hI : FInv s) (sched : List Nat) : FInv (run s sched) := by
-  induction sched generalizing s with
-  | nil => exact hI
-  | cons i r ih => exact ih (finv_step hI i)
-
-/-- the participants draw process numbers below `fmProcs` (what `randrange(1, 1 << 9)` returns) and call
-`get_fmmu_addr` at most `fmWindow / fmGroup - 1` times -/
-def Bounded (cfgs : List Cfg) : Prop :=
-  ∀ c ∈ cfgs, (∀ d ∈ c.fmDraws, d < fmProcs) ∧ (c.nAddr + 1) * fmGroup ≤ fmWindow
-
-instance (cfgs : List Cfg) : Decidable (Bounded cfgs) := by unfold Bounded; infer_instance
-
-theorem getP_init' (cfgs : List Cfg) (fm0 : Option (List Nat)) (i : Nat) (hi : i < (init cfgs fm0).procs.length) :
-    (getP (init cfgs fm0) i).pc = .mkdtemp ∧
-      ∃ c ∈ cfgs, (getP (init cfgs fm0) i).fmDraws = c.fmDraws ∧ (getP (init cfgs fm0) i).nAddr = c.nAddr := by
-  simp only [init, List.length_map] at hi
-  simp only [getP, init, List.getD, List.getElem?_map, List.getElem?_eq_getElem hi, Option.map_some, Option.getD_some]
-  exact ⟨trivial, cfgs[i], List.getElem_mem hi, rfl, rfl⟩
-
-theorem finv_init (cfgs : List Cfg) (f0 : List Nat) (hf : f0.length = fmSize) (hb : Bounded cfgs) :
-    FInv (init cfgs (some f0)) := by
-  have hpc : ∀ i, i < (init cfgs (some f0)).procs.length → (getP (init cfgs (some f0)) i).pc = .mkdtemp :=
-    fun i hi => (getP_init' cfgs _ i hi).1
-  refine ⟨⟨rfl, hf⟩, ?_, ?_, ?_, ?_, ?_, ?_, ?_⟩
-  · intro i hi
-    obtain ⟨_, c, hc, e1, e2⟩ := getP_init' cfgs _ i hi
-    unfold ProcOk; rw [e1, e2]; exact hb c hc
-  · intro i hi h; rw [hpc i hi] at h; cases h
-  · intro i j hi _ _ h; rw [hpc i hi] at h; cases h
-  · intro i hi h; rw [hpc i hi] at h; cases h
-  · intro i hi h; rw [hpc i hi] at h; cases h
-  · intro i hi h; rw [hpc i hi] at h; cases h
-  · intro i hi; rw [hpc i hi]; decide
-
-/-- **C23, FMMU windows (partial)**: if the bitmap file already exists with its full size when the
-participants start (no create-then-initialise window) and nobody asks for more sync-group addresses than a
-process window holds, the logical address windows of running participants are pairwise disjoint — for every
-schedule, any number of participants, any earlier contents of the bitmap. -/
-theorem fmmu_windows_disjoint_partial (cfgs : List Cfg) (f0 : List Nat) (sched : List Nat)
-    (hf : f0.length = fmSize) (hb : Bounded cfgs) :
-    FmmuWindowsDisjoint (run (init cfgs (some f0)) sched) := by
-  have hI := finv_run (finv_init cfgs f0 hf hb) sched
-  generalize run (init cfgs (some f0)) sched = s at hI ⊢
-  intro i j hi hj hij hri hrj
-  have hoi : (getP s i).pc.owns = true := by rw [hri]; rfl
-  have hoj : (getP s j).pc.owns = true := by rw [hrj]; rfl
-  have hd := hI.dist i j hi hj hij hoi hoj
-  have hci := (hI.cfg i hi).2
-  have hcj := (hI.cfg j hj).2
-  simp only [disjoint, winLo, winLen, winBase, Bool.or_eq_true]
-  simp only [fmWindow, fmGroup] at hci hcj ⊢
-  rcases Nat.lt_or_gt_of_ne hd with h | h
-  · left; exact decide_eq_true (by omega)
-  · right; exact decide_eq_true (by omega)
+--FMMU-SECTION--
 /-! ### the invariant behind `installed_while_running_partial` -/
 
 /-- member that is past the start section and has not begun to leave -/
